@@ -19,7 +19,9 @@ RULE = ("Hypothesis draws logical files (1-6 segments, quick; up to 12 or 100-26
         "multi-chunk, interleaved or big-endian segment; distinct = distinct SHA-1 of the canonical case JSON."
         ' A further job reads C02 histories in a randomly chosen compressed physical encoding (inherited raw indexes, '
         'metadata-less segments after header-only segments); the shared generator also emits segments that declare '
-        'channels but hold no chunk.')
+        'channels but hold no chunk.'
+        ' Wide files (120-400 channels in up to 12 groups) are included; property names include ones that look like '
+        "internal keys ('name', 'path', 'wf_start_time').")
 ASSUMPTIONS = [
     "the independent encoder (vf/encode.py) implements the NI TDMS layout correctly",
     "well-formed files only: valid UTF-8, no duplicate path in one metadata block, one data type per channel",
